@@ -253,13 +253,15 @@ class LocalFileStore(Store):
             loc_dir = os.path.dirname(loc)
             os.makedirs(loc_dir, exist_ok=True)
             loc_blob = os.path.join(self._root, "blobs", key)
-            if os.path.exists(loc) and os.path.realpath(loc) == loc_blob:
+            if os.path.islink(loc) and os.readlink(loc) == loc_blob:
                 _logger.debug(f"Link {loc} up to date")
             else:
-                if os.path.exists(loc):
-                    os.remove(loc)
                 _logger.info(f"Link {loc} -> {loc_blob}")
-                os.symlink(loc_blob, loc)
+                # Replace the link in one step: a reader (or the next run, if this one is killed here) finds the
+                # old link or the new one, never a missing path; two writers do not trip over each other.
+                tmp_loc = f"{loc}.tmp-{os.getpid()}-{uuid.uuid4().hex}"
+                os.symlink(loc_blob, tmp_loc)
+                os.replace(tmp_loc, loc)
 
     def fetch_paths(self, paths: List[DDSPath]) -> "OrderedDict[DDSPath, PyHash]":
         res = OrderedDict()
